@@ -448,6 +448,31 @@ Section Seq.
     induction pre as [|t pre IH] using rev_ind; intro H. apply seq_facts_nil.
     apply pre_ok_snoc in H. destruct H as [H1 H2]. apply seq_facts_snoc; auto.
   Qed.
+  Definition pos_det (l : list lcell) : Prop :=
+    forall c c', In c l -> In c' l -> lc_bn c = lc_bn c' -> lc_txi c = lc_txi c' ->
+                 snd (lc_op c) = snd (lc_op c') -> c = c'.
+  Hypothesis Hpos : pos_det L0.
+
+  Lemma seq_pos : forall pre, pre_ok pre -> pos_det (PL pre).
+  Proof.
+    induction pre as [|t pre IH] using rev_ind; intro H.
+    - exact Hpos.
+    - pose proof H as H0. apply pre_ok_snoc in H. destruct H as [H1 H2]. specialize (IH H1).
+      pose proof (seq_facts pre H1) as F.
+      intros c c' Hc Hc' E1 E2 E3. rewrite PL_snoc in Hc, Hc'. unfold live_tx in *.
+      apply in_app_or in Hc. apply in_app_or in Hc'.
+      assert (OLD : forall x, In x (fold_left spend (tx_ins (N.of_nat (length pre)) t) (PL pre)) ->
+                  In x (PL pre) /\ (lc_bn x < bn \/ (lc_bn x = bn /\ lc_txi x < N.of_nat (length pre)))).
+      { intros x Hx. apply in_fold_spend in Hx. destruct Hx as [Hx _]. split; auto.
+        apply origin_pos. apply (sf_origin _ F). auto. }
+      destruct Hc as [Hc|Hc], Hc' as [Hc'|Hc'].
+      + apply OLD in Hc. apply OLD in Hc'. apply IH; tauto.
+      + apply OLD in Hc. apply in_new_cells in Hc'. destruct Hc' as [oi [o [_ ->]]]. cbn in *. lia.
+      + apply OLD in Hc'. apply in_new_cells in Hc. destruct Hc as [oi [o [_ ->]]]. cbn in *. lia.
+      + apply in_new_cells in Hc. apply in_new_cells in Hc'.
+        destruct Hc as [oi [o [G1 ->]]]. destruct Hc' as [oi' [o' [G1' ->]]]. cbn in E3.
+        assert (oi = oi') by lia. subst oi'. congruence.
+  Qed.
 End Seq.
 
 (* ---- valid chains ------------------------------------------------------------------ *)
@@ -501,7 +526,8 @@ Record ChainFacts (ch : list block) : Prop := {
   cf_tbn : forall r, In r (txs ch) -> tr_bn (snd r) < N.of_nat (length ch);
   cf_tnd : NoDup (txs ch);
   cf_ids_nd : NoDup (chain_tx_ids ch);
-  cf_num : forall j B, nth_error ch j = Some B -> b_num B = N.of_nat j }.
+  cf_num : forall j B, nth_error ch j = Some B -> b_num B = N.of_nat j;
+  cf_pos : pos_det (live ch) }.
 
 Lemma block_seq_facts : forall ch b pre rest, ChainFacts ch -> block_ok ch b = true ->
   b_txs b = pre ++ rest -> SeqFacts (b_num b) (live ch) (txs ch) (chain_tx_ids ch) pre.
@@ -518,6 +544,7 @@ Lemma chain_facts : forall ch, chain_ok ch -> ChainFacts ch.
 Proof.
   induction 1 as [|ch b Hc IH Hb].
   - constructor; cbn; try tauto; try constructor. intros j B H. destruct j; discriminate.
+    intros c c' [].
   - pose proof (block_seq_facts ch b (b_txs b) [] IH Hb (eq_sym (app_nil_r _))) as F.
     pose proof (block_ok_parts _ _ Hb) as [Hn [_ [_ [Hnd Hfresh]]]].
     constructor.
@@ -535,4 +562,12 @@ Proof.
     + rewrite chain_tx_ids_snoc. apply NoDup_app_intro; auto. apply (cf_ids_nd _ IH).
       intros x H1 H2. apply in_map_iff in H2. destruct H2 as [t [<- H2]]. apply (Hfresh t); auto.
     + intros j B H. apply nth_error_snoc_inv in H. destruct H as [H|[-> ->]]; auto. apply (cf_num _ IH); auto.
+    + rewrite live_snoc. apply (seq_pos (b_num b) (live ch) (txs ch) (chain_tx_ids ch)); auto.
+      * apply (cf_nd _ IH).
+      * intros c0 H0. rewrite Hn. apply (cf_bn _ IH). auto.
+      * apply (cf_id _ IH).
+      * intros r Hr. rewrite Hn. apply (cf_tbn _ IH). auto.
+      * apply (cf_tnd _ IH).
+      * apply (cf_pos _ IH).
+      * apply block_ok_parts in Hb. tauto.
 Qed.
